@@ -38,6 +38,11 @@ class BestSizes(Contract):
         for signed in (None, True, False):
             for case in ('int_frac_given', 'int_word_given'):
                 yield dict(signed=signed, f=3, shape=[], case=case, bits=6)
+        # Python containers mixing int and float elements
+        for signed in (None, True, False):
+            for car in ('list', 'tuple', 'nestedtuple'):
+                for case in ('mixed_free', 'mixed_word_given'):
+                    yield dict(signed=signed, f=2, shape=[2], case=case, bits=5, carrier=car)
         # a NEGATIVE fraction length given (word inferred)
         for signed in (None, True, False):
             for shape in ([], [2]):
@@ -66,6 +71,8 @@ class BestSizes(Contract):
         lo = -lim if cfg['signed'] is not False else 0
         if cfg['case'] == 'raw_frac_given':
             return {'k': [D.int('k%d' % i, lo, lim) for i in range(n)]}
+        if cfg['case'].startswith('mixed_'):
+            return {'k': [D.int('k0', lo, lim), D.dyadic('k1', cfg['f'], lo, lim)]}      # [python int, python float]
         if cfg['case'].startswith('carrier_'):
             car = cfg['carrier']
             clo, chi = (-128, 127) if 'int8' in car and 'uint8' not in car else (0, 255) if 'uint' in car else (-255, 255)
@@ -82,7 +89,8 @@ class BestSizes(Contract):
         if c in ('int_word_given', 'like_int_word', 'resize_int_word'): return {'n_int': 4, 'n_word': 9}
         if c == 'raw_frac_given': return {'n_frac': cfg['given_frac']}
         if c in ('carrier_frac_given', 'frac_given_neg'): return {'n_frac': cfg['given_frac']}
-        if c == 'carrier_free': return {}
+        if c in ('carrier_free', 'mixed_free'): return {}
+        if c == 'mixed_word_given': return {'n_word': cfg['bits'] // 2 + 2}
 
     def run(self, cfg, P, inp):
         vals = inp['k']
@@ -95,6 +103,9 @@ class BestSizes(Contract):
         elif case.startswith('resize_'):
             x = P.Fxp(None, not cfg['signed'], 12, 3)
             x.resize(signed=cfg['signed'], **kw)
+        elif case.startswith('mixed_'):
+            car = {'list': lambda: [vals[0], vals[1]], 'tuple': lambda: (vals[0], vals[1]), 'nestedtuple': lambda: ((vals[0], vals[1]), (vals[1], vals[0]))}[cfg['carrier']]()
+            x = P.Fxp(car, cfg['signed'], **kw)
         elif case.startswith('carrier_'):
             from contracts.l3_fxp import build_carrier
             x = P.Fxp(build_carrier(P, cfg['carrier'], list(vals), cfg['shape']), cfg['signed'], **kw)
@@ -134,6 +145,10 @@ class BestSizes(Contract):
             case = 'free' if case == 'carrier_free' else 'frac_given'
         if case == 'frac_given_neg':
             case = 'frac_given'
+        if case.startswith('mixed_'):
+            case = 'free' if case == 'mixed_free' else 'word_given'
+            if cfg['carrier'] == 'nestedtuple':
+                vs = [vs[0], vs[1], vs[1], vs[0]]
         if case == 'raw_frac_given':
             out['raw_codes_stored'] = And(*[eq(c, M(k)) for c, k in zip(codes, inp['k'])])
             case = 'frac_given'
@@ -166,4 +181,52 @@ class BestSizes(Contract):
         else:
             out['arithmetic'] = And(W == gv.get('n_word', gv['n_int'] + gv.get('n_frac', 0) + s),
                                     F == gv.get('n_frac', gv.get('n_word', 0) - gv['n_int'] - s), n_int == gv['n_int'])
+        return out
+
+
+@contract
+class BestSizesCapped(Contract):
+    """BOUNDED stand-in (not a proof) for the capped case of size inference: values that are not exactly
+    representable within the configured maximum word (64 bits) -- non-dyadic doubles, tiny magnitudes -- get a
+    word of at most 64 bits, are quantized with an error below one LSB, and the inaccuracy flag is raised iff
+    the stored value differs from the input (compared exactly, as rationals)."""
+    name = 'objects:Fxp.set_best_sizes[capped] (bounded)'
+    layer = 4
+    native_only = True
+    props = {'*': ['C06']}
+
+    VALUES = [1e-5, -1e-6, 3e-7, 0.1, 1.0 / 3.0, 0.3, 2.15, 1e-9, 123.456, -0.7, 1e-12, 2.0 ** -40, 3 * 2.0 ** -60, 2.0 ** -70, 5e-20, 1 + 2.0 ** -52, 1e5 + 0.1]
+
+    def configs(self, tier):
+        for signed in (None, True, False):
+            yield dict(signed=signed)
+
+    def run(self, cfg, P, inp):
+        from fractions import Fraction
+        bad = []; cases = 0
+        vals = [v for v in self.VALUES if not (cfg['signed'] is False and v < 0)]
+        inputs = [v for v in vals] + [[vals[0], vals[2]], [vals[3], 0.5]]
+        for v in inputs:
+            x = P.Fxp(v, cfg['signed'])
+            vs = v if isinstance(v, list) else [v]
+            codes = [int(c) for c in P.np.ravel(x.val)] if hasattr(P.np, 'ravel') else [int(x.val)]
+            cases += 1
+            lsb = Fraction(1, 2 ** x.n_frac) if x.n_frac >= 0 else Fraction(2 ** -x.n_frac)
+            stored = [Fraction(c) * lsb for c in codes]
+            exact = all(s == Fraction(w) for s, w in zip(stored, vs))
+            ok = {'word_cap': x.n_word <= 64,
+                  'error_below_lsb': all(abs(s - Fraction(w)) < lsb for s, w in zip(stored, vs)),
+                  'inaccuracy_iff_inexact': bool(x.status['inaccuracy']) == (not exact),
+                  'no_overflow': not x.status['overflow'] and not x.status['underflow']}
+            for k, good in ok.items():
+                if not good and len(bad) < 6:
+                    bad.append([k, repr(v), x.dtype, codes, dict(x.status)])
+        return {'bad': bad, 'cases': cases}
+
+    def post(self, cfg, inp, obs):
+        if obs['exc']:
+            return {}
+        failed = {b[0] for b in obs['bad']}
+        out = {k: (k not in failed) for k in ('word_cap', 'error_below_lsb', 'inaccuracy_iff_inexact', 'no_overflow')}
+        out['nonvacuous'] = obs['cases'] >= 10
         return out
